@@ -332,6 +332,18 @@ Ltac zfold_step :=
       is_closed a; is_closed b; let v := eval vm_compute in (a >=? b) in change (a >=? b) with v
   | |- context [?a >? ?b] =>
       is_closed a; is_closed b; let v := eval vm_compute in (a >? b) in change (a >? b) with v
+  | |- context [?a / ?b] =>
+      is_closed a; is_closed b; let v := eval vm_compute in (a / b) in progress change (a / b) with v
+  | |- context [?a mod ?b] =>
+      is_closed a; is_closed b; let v := eval vm_compute in (a mod b) in progress change (a mod b) with v
+  | |- context [Z.land ?a ?b] =>
+      is_closed a; is_closed b; let v := eval vm_compute in (Z.land a b) in progress change (Z.land a b) with v
+  | |- context [Z.lor ?a ?b] =>
+      is_closed a; is_closed b; let v := eval vm_compute in (Z.lor a b) in progress change (Z.lor a b) with v
+  | |- context [Z.shiftl ?a ?b] =>
+      is_closed a; is_closed b; let v := eval vm_compute in (Z.shiftl a b) in progress change (Z.shiftl a b) with v
+  | |- context [Z.shiftr ?a ?b] =>
+      is_closed a; is_closed b; let v := eval vm_compute in (Z.shiftr a b) in progress change (Z.shiftr a b) with v
   | |- context [fst ?p] =>
       is_closed p; let v := eval vm_compute in (fst p) in progress change (fst p) with v
   | |- context [snd ?p] =>
@@ -474,6 +486,13 @@ Qed.
 Lemma wb_from_tail h t lo : lo = blen h -> wb_from (h ++ t) lo = Ok t.
 Proof. intros ->. apply wb_from_app_r. Qed.
 
+Lemma wb_upto_app_l h t n : n <= blen h -> wb_upto (h ++ t) n = wb_upto h n.
+Proof.
+  intros Hn. unfold wb_upto. rewrite blen_app. pose proof (blen_nonneg t).
+  destruct (0 <=? n) eqn:E; cbn [andb]; [|reflexivity]. bsplit. zbool.
+  rewrite firstn_app_l by (unfold blen in *; lia). reflexivity.
+Qed.
+
 (* ---------- evaluating operations on an explicit header followed by a symbolic tail ----------
    [hstep]: for the first primitive applied to  (h ++ t)  with h an explicit cell list and
    closed positions inside h: push it into h (framing lemma), evaluate it there by [cbv]
@@ -503,6 +522,8 @@ Ltac hstep :=
       rewrite (wb_get_u8_app_l (a :: h) t i) by side_blen; heval (wb_get_u8 (a :: h) i)
   | |- context [wb_sub ((?a :: ?h) ++ ?t) ?lo ?hi] =>
       rewrite (wb_sub_app_l (a :: h) t lo hi) by side_blen; heval (wb_sub (a :: h) lo hi)
+  | |- context [wb_upto ((?a :: ?h) ++ ?t) ?n] =>
+      rewrite (wb_upto_app_l (a :: h) t n) by side_blen; heval (wb_upto (a :: h) n)
   end; cbn [omap obind].
 
 (* split a buffer into an n-octet header and the rest *)
@@ -523,3 +544,106 @@ Ltac nopanic :=
     | match goal with |- (if ?c then _ else _) <> Panic => destruct c end
     | match goal with |- wb_guard ?c <> Panic => destruct c; cbn [wb_guard] end
     | match goal with |- (match ?x with _ => _ end) <> Panic => destruct x end ].
+
+(* ---------- bit-field algebra: masks are constants, the old contents are arbitrary ----------
+   (x & m1 | v) & m2  =  x & (m1 & m2) | (v & m2), constants folded, x & 0 = 0. *)
+Ltac bits_norm :=
+  repeat rewrite Z.land_lor_distr_l; repeat rewrite <- Z.land_assoc; zfold;
+  repeat (rewrite ?Z.land_0_r, ?Z.lor_0_l, ?Z.lor_0_r; zfold).
+
+(* evaluate the head operation of a monadic chain on an explicit cell list *)
+Ltac mstep := match goal with |- obind ?x ?k = _ => heval x; cbn [obind] end.
+
+(* reading back a u16 that was just written, for arbitrary (not range-checked) values *)
+Lemma be_dec_cells2_land v : be_dec [(v / 256) mod 256; v mod 256] = Z.land v 65535.
+Proof.
+  change 65535 with (Z.ones 16). rewrite Z.land_ones by lia.
+  unfold be_dec; cbn [fold_left]. change (2 ^ 16) with 65536. lia.
+Qed.
+
+Lemma land_65535_small v : 0 <= v < 65536 -> Z.land v 65535 = v.
+Proof. intros. change 65535 with (Z.ones 16). rewrite Z.land_ones by lia. apply Z.mod_small. lia. Qed.
+
+Lemma land_255_small v : 0 <= v < 256 -> Z.land v 255 = v.
+Proof. intros. change 255 with (Z.ones 8). rewrite Z.land_ones by lia. apply Z.mod_small. lia. Qed.
+
+Lemma land_ones_range x n : 0 <= n -> 0 <= Z.land x (Z.ones n) < 2 ^ n.
+Proof. intros. rewrite Z.land_ones by assumption. apply Z.mod_pos_bound. apply Z.pow_pos_nonneg; lia. Qed.
+
+Lemma land_15_range x : 0 <= Z.land x 15 < 16.
+Proof. exact (land_ones_range x 4 ltac:(lia)). Qed.
+Lemma land_3_range x : 0 <= Z.land x 3 < 4.
+Proof. exact (land_ones_range x 2 ltac:(lia)). Qed.
+
+Lemma shiftr_range x n m : 0 <= x < m -> 0 <= n -> 0 <= Z.shiftr x n < m.
+Proof.
+  intros Hx Hn. rewrite Z.shiftr_div_pow2 by assumption.
+  assert (0 < 2 ^ n) by (apply Z.pow_pos_nonneg; lia).
+  split; [apply Z.div_pos; lia|]. apply Z.le_lt_trans with x; [|lia].
+  apply Z.div_le_upper_bound; [lia|]. nia.
+Qed.
+
+(* ---------- framing of a whole emit: tactic support ----------
+   [frame_op]: the head of the chain is a primitive applied to (h ++ t) inside the prefix *)
+Lemma obind_same_tail {A B} (x : outcome A) (k k' : A -> outcome B) (g : B -> B) :
+  (forall a, x = Ok a -> k a = omap g (k' a)) -> obind x k = omap g (obind x k').
+Proof. destruct x; cbn; intros H; [apply H; reflexivity | reflexivity | reflexivity]. Qed.
+
+
+(* [refold_tail t]: rewrite every  c0 :: ... :: cn :: t  in the goal as  [c0; ...; cn] ++ t *)
+Ltac refold_tail t :=
+  repeat match goal with
+  | |- context [?x :: t] => change (x :: t) with ([x] ++ t)
+  end;
+  repeat match goal with
+  | |- context [?x :: (?l ++ t)] => change (x :: (l ++ t)) with ((x :: l) ++ t)
+  end.
+
+(* ---------- framing of a whole emit function ----------
+   Goal shape:  chain (h ++ t) = omap (fun x => x ++ t) (chain h)  where the chain consists of
+   primitives acting inside the prefix h (|h| known numerically in the context).
+   [frame_step] peels one operation; [frame] repeats. *)
+Lemma obind_assoc {A B C} (x : outcome A) (f : A -> outcome B) (k : B -> outcome C) :
+  obind (obind x f) k = obind x (fun a => obind (f a) k).
+Proof. destruct x; reflexivity. Qed.
+
+Ltac frame_side := unfold wb_set_field, wb_put_u16, wb_put_u32 in *; zfold; lia.
+
+Ltac frame_len E :=
+  first [ apply wb_upd_u8_len in E | apply wb_upd_u16_len in E | apply wb_set_u8_len in E
+        | apply wb_put_be_len in E | apply wb_set_slice_len in E ].
+
+Ltac frame_step :=
+  lazymatch goal with
+  | |- obind (wb_upd_u8 (?h ++ ?t) ?i ?f) _ = _ =>
+      rewrite (wb_upd_u8_app_l h t i f) by frame_side;
+      apply obind_omap_tail; let h' := fresh "h" in let E := fresh "E" in intros h' E; frame_len E
+  | |- obind (wb_upd_u16 (?h ++ ?t) ?fl ?g) _ = _ =>
+      rewrite (wb_upd_u16_app_l h t fl g) by frame_side;
+      apply obind_omap_tail; let h' := fresh "h" in let E := fresh "E" in intros h' E; frame_len E
+  | |- obind (wb_set_u8 (?h ++ ?t) ?i ?v) _ = _ =>
+      rewrite (wb_set_u8_app_l h t i v) by frame_side;
+      apply obind_omap_tail; let h' := fresh "h" in let E := fresh "E" in intros h' E; frame_len E
+  | |- obind (wb_put_be (?h ++ ?t) ?lo ?hi ?e) _ = _ =>
+      rewrite (wb_put_be_app_l h t lo hi e) by frame_side;
+      apply obind_omap_tail; let h' := fresh "h" in let E := fresh "E" in intros h' E; frame_len E
+  | |- obind (wb_set_slice (?h ++ ?t) ?lo ?hi ?v) _ = _ =>
+      rewrite (wb_set_slice_app_l h t lo hi v) by frame_side;
+      apply obind_omap_tail; let h' := fresh "h" in let E := fresh "E" in intros h' E; frame_len E
+  | |- obind (wb_get_u8 (?h ++ ?t) ?i) _ = _ =>
+      rewrite (wb_get_u8_app_l h t i) by frame_side; apply obind_same_tail; intros ? _
+  | |- obind (wb_get_be (?h ++ ?t) ?lo ?hi ?n) _ = _ =>
+      rewrite (wb_get_be_app_l h t lo hi n) by frame_side; apply obind_same_tail; intros ? _
+  | |- obind (wb_upto (?h ++ ?t) ?n) _ = _ =>
+      rewrite (wb_upto_app_l h t n) by frame_side; apply obind_same_tail; intros ? _
+  | |- obind (wb_assert _) _ = _ => apply obind_same_tail; intros ? _
+  | |- obind (obind _ _) _ = _ => rewrite !obind_assoc
+  | |- obind (Ok _) _ = _ => cbn [obind]
+  | |- wb_upd_u8 (?h ++ ?t) ?i ?f = _ => apply wb_upd_u8_app_l; frame_side
+  | |- wb_upd_u16 (?h ++ ?t) ?fl ?g = _ => apply wb_upd_u16_app_l; frame_side
+  | |- wb_set_u8 (?h ++ ?t) ?i ?v = _ => apply wb_set_u8_app_l; frame_side
+  | |- wb_put_be (?h ++ ?t) ?lo ?hi ?e = _ => apply wb_put_be_app_l; frame_side
+  | |- wb_set_slice (?h ++ ?t) ?lo ?hi ?v = _ => apply wb_set_slice_app_l; frame_side
+  | |- (if ?c then _ else _) = _ => destruct c
+  end.
+Ltac frame := repeat frame_step.
